@@ -1,6 +1,7 @@
 mod aisle;
 mod builder;
 mod calls;
+mod convert;
 mod docs;
 mod project;
 mod shared;
@@ -29,6 +30,7 @@ fn main() {
         "meta" => meta::main(&args[1..]),
         "shared" => shared::main(&args[1..]),
         "group" => group::main(&args[1..]),
+        "convert" => convert::main(&args[1..]),
         "list" => list::main(&args[1..]),
         "builder" => builder::main(&args[1..]),
         "stdmeta" => stdmeta::main(&args[1..]),
